@@ -52,7 +52,12 @@ def run(chk):
               'elementpath/datatypes/any_types.py', 'elementpath/datatypes/proxies.py', 'elementpath/datatypes/numeric.py'):
         chk.record_source(f)
     chk.forbidden_scan(['C18'])
-    proved = chk.prove(['theories/C18/Model.v', 'theories/C18/Proofs.v', 'theories/C18/Run.v'], 'theories/C18/Properties.v')
+    import sys as _sys
+    _sys.path.insert(0, core.VERIF + '/harness')
+    import gen_c18
+    gen_c18.generate()          # T-data / source-shape facts regenerated from /repo on every run
+    chk.trusted.append('harness/shape.py: AST lookup of the statements mirrored by the hand model (Gen/C18Shape.v)')
+    proved = chk.prove(['theories/Gen/C18Shape.v', 'theories/C18/Model.v', 'theories/C18/Proofs.v', 'theories/C18/Run.v'], 'theories/C18/Properties.v')
     model_ok = True
     if not proved:
         try:
